@@ -37,6 +37,10 @@ CONTRACTS = {}
 LEMMAS = {}
 
 
+def _force(x):
+    return x() if callable(x) and not isinstance(x, V) else x
+
+
 class Contract:
     def __init__(self, name, cls, params, returns, props, assumed):
         self.name = name
@@ -94,17 +98,20 @@ class SymCtx:
         return BoolV(z3.BoolVal(False))
 
     def and_(self, *xs):
+        xs = [_force(x) for x in xs]
         xs = [x for x in xs if x is not True]
         return BoolV(z3.And([B(x) for x in xs])) if xs else self.true()
 
     def or_(self, *xs):
+        xs = [_force(x) for x in xs]
         return BoolV(z3.Or([B(x) for x in xs])) if xs else self.false()
 
     def not_(self, x):
         return BoolV(z3.Not(B(x)))
 
     def implies(self, a, b):
-        return BoolV(z3.Implies(B(a), B(b)))
+        """b may be a thunk (evaluated lazily at run time, so that guarded subscripts are safe)."""
+        return BoolV(z3.Implies(B(a), B(_force(b))))
 
     def iff(self, a, b):
         return BoolV(B(a) == B(b))
@@ -157,7 +164,56 @@ class SymCtx:
         raise Unsupported(f"len of {x!r}")
 
     def seq_eq(self, a, b):
+        fa = a.meta.get("filter") if isinstance(a, SeqV) else None
+        fb = b.meta.get("filter") if isinstance(b, SeqV) else None
+        if fa is not None and fb is not None:
+            # proof rule FILTER-CONGRUENCE (generic lemma proved by induction in pyvc/lemmas.py):
+            # two filters over the same index range with pointwise equivalent predicates and equal
+            # selected values are equal sequences
+            i = fresh("fc")
+            pa, pb = fa["pred"](i), fb["pred"](i)
+            body = z3.Implies(z3.And(i >= 0, i < fa["n"]), z3.And(pa == pb, z3.Implies(pa, veq(fa["val"](i), fb["val"](i)))))
+            if self.engine is not None:
+                self.engine.rules_used.add("filter-congruence")
+            return BoolV(z3.And(fa["n"] == fb["n"], z3.ForAll([i], body)))
         return BoolV(veq(a, b))
+
+    def listing(self, name, lo, hi, pred, val=None):
+        """[val(i) for i in range(lo, hi) if pred(i)]  (definitional filter; one instance per name
+        and verification run, so that invariants and postconditions talk about the same cnt/sel)."""
+        eng = self.engine
+        cache = eng.listings
+        if name in cache:
+            return cache[name]
+        lo_t, hi_t = Z(lo), Z(hi)
+        n = z3.If(hi_t > lo_t, hi_t - lo_t, z3.IntVal(0))
+        valf = val or (lambda i: i)
+
+        def p(i):
+            return B(pred(IntV(lo_t + i)))
+
+        def v(i):
+            out = valf(IntV(lo_t + i))
+            return out if isinstance(out, V) else IntV(Z(out))
+
+        class _Sink:
+            def __init__(self):
+                self.pc = []
+
+            def assume(self, f):
+                self.pc.append(f)
+
+        sink = _Sink()
+        seq = eng.make_filter(n, p, v, sink, "list")
+        eng.global_axioms.extend(sink.pc)
+        seq.meta["filter"]["lo"] = lo_t
+        cache[name] = seq
+        return seq
+
+    def count_upto(self, listing, k):
+        """Number of listed elements whose index is < k."""
+        f = listing.meta["filter"]
+        return IntV(f["cnt"](Z(k) - f["lo"]))
 
     def is_perm(self, p):
         """Bijection of range(n), stated with the ghost two-sided inverse carried by
@@ -193,11 +249,21 @@ class SymCtx:
     def is_none(self, x):
         return BoolV(z3.BoolVal(isinstance(x, NoneV)))
 
+    def given(self, x):
+        """Python-level: was the optional argument supplied (not None)?"""
+        return not isinstance(x, NoneV) and x is not None
+
+    def opt(self, x, default):
+        return default if isinstance(x, NoneV) or x is None else x
+
     def mod(self, x, n):
-        """x % n for n > 0 (explicit quotient encoding)."""
-        q, r = fresh("quo"), fresh("rem")
-        self.side.append(z3.And(Z(x) == q * Z(n) + r, r >= 0, r < Z(n)))
-        return IntV(r)
+        """x % n for n > 0 (explicit quotient encoding, see values.divmod_axiom)."""
+        from .values import REM
+
+        nn = z3.simplify(Z(n))
+        if z3.is_int_value(nn) and nn.as_long() > 0:
+            return IntV(Z(x) % nn)
+        return IntV(REM(Z(x), Z(n)))
 
     def cls_is(self, obj, name):
         return BoolV(z3.BoolVal(getattr(obj, "cls", None) == name or (isinstance(obj, SeqV) and obj.kind == name)))
@@ -216,8 +282,22 @@ def _forall(vars_, body, pattern=None):
     return z3.ForAll(vars_, body)
 
 
+_ARITH = {z3.Z3_OP_ADD, z3.Z3_OP_SUB, z3.Z3_OP_MUL, z3.Z3_OP_UMINUS, z3.Z3_OP_ANUM}
+
+
+def _clean(t):
+    if z3.is_var(t) or z3.is_int_value(t):
+        return True
+    if not z3.is_app(t):
+        return False
+    k = t.decl().kind()
+    if k == z3.Z3_OP_UNINTERPRETED or k in _ARITH:
+        return all(_clean(ch) for ch in t.children())
+    return False
+
+
 def _pat_ok(t):
-    return z3.is_app(t) and t.decl().kind() == z3.Z3_OP_UNINTERPRETED and t.num_args() > 0
+    return z3.is_app(t) and t.decl().kind() == z3.Z3_OP_UNINTERPRETED and t.num_args() > 0 and _clean(t)
 
 
 def perm_formula(p, g):
@@ -249,16 +329,16 @@ class RunCtx:
         return False
 
     def and_(self, *xs):
-        return all(bool(x) for x in xs)
+        return all(bool(_force(x)) for x in xs)
 
     def or_(self, *xs):
-        return any(bool(x) for x in xs)
+        return any(bool(_force(x)) for x in xs)
 
     def not_(self, x):
         return not x
 
     def implies(self, a, b):
-        return (not a) or bool(b)
+        return (not a) or bool(_force(b))
 
     def iff(self, a, b):
         return bool(a) == bool(b)
@@ -292,6 +372,14 @@ class RunCtx:
     def seq_eq(self, a, b):
         return _run_eq(a, b)
 
+    def listing(self, name, lo, hi, pred, val=None):
+        out = _RunListing(val(i) if val else i for i in range(lo, hi) if pred(i))
+        out.indices = [i for i in range(lo, hi) if pred(i)]
+        return out
+
+    def count_upto(self, listing, k):
+        return sum(1 for i in listing.indices if i < k)
+
     def is_perm(self, p):
         return sorted(p) == list(range(len(p)))
 
@@ -314,6 +402,12 @@ class RunCtx:
     def is_none(self, x):
         return x is None
 
+    def given(self, x):
+        return x is not None
+
+    def opt(self, x, default):
+        return default if x is None else x
+
     def mod(self, x, n):
         return x % n
 
@@ -321,7 +415,14 @@ class RunCtx:
         return type(obj).__name__ == name
 
     def call(self, name, *args):
-        return self.resolver(name)(*args)
+        out = self.resolver(name)(*args)
+        if hasattr(out, "__next__"):
+            out = list(out)
+        return out
+
+
+class _RunListing(list):
+    pass
 
 
 def _run_eq(a, b):
